@@ -1710,6 +1710,7 @@ package yqlib
 //@   nosafety
 //@   nopre
 //@   noframe
+//@   overlay
 //@   at PushBack: assert @the-result-stands-where-its-input-stood {C10} arg1 == iface(sortedList) && sortedList.document == candidate.document && sortedList.fileIndex == candidate.fileIndex && sortedList.filename == candidate.filename
 //@   at PushBack: assert @a-container-that-owns-its-children {C16} ownsItsChildren(sortedList)
 //@   loop 2:
@@ -1725,3 +1726,14 @@ package yqlib
 //@   noframe
 //@   requires dec != nil
 //@   ensures @a-node result != nil
+
+// operator_traverse_path.go: `.x[EXPR]` evaluates EXPR read-only (a missing path inside it is not created, C02
+// frame / C08), on the nodes the operator was given
+//@ func traverseArrayOperator
+//@   props C02
+//@   nosafety
+//@   nopre
+//@   noframe
+//@   overlay
+//@   requires d != nil && validCtx(context) && expressionNode != nil
+//@   at GetMatchingNodes#2: assert @the-index-expression-is-evaluated-read-only {C02,C08} arg1.DontAutoCreate && arg1.MatchingNodes == context.MatchingNodes && arg2 == expressionNode.RHS
